@@ -574,7 +574,7 @@ def run(ctx):
     fut_mc5 = None if ctx.quick else pool.submit(tlc.run, "Accel.tla", "Accel_mc5.cfg", workers=4, timeout=2400)
     futs = defect_runs(ctx, pool)
     t0 = os.times()
-    budget = int(os.environ.get("C14_BUDGET", ctx.pick(3200, 36000)))       # (C14_BUDGET: debugging aid)
+    budget = int(os.environ.get("C14_BUDGET", ctx.pick(2800, 36000)))       # (C14_BUDGET: debugging aid)
     records = replay_graph(ctx, ctx.pick("Accel_mc.cfg", "Accel_mc5.cfg"), budget, ctx.pick("depth 4", "depth 5"))
     # ref storage alone, deeper (no objects move, so it is cheap): every transition executed
     records += replay_graph(ctx, ctx.pick("Accel_refs.cfg", "Accel_refs3.cfg"), 10 ** 9,
@@ -591,7 +591,7 @@ def run(ctx):
     large_offset_layout(ctx)
     shallow_clone_layout(ctx)
     defect_replays(ctx, futs)
-    wtraces, wmeta = walks(ctx, ctx.pick(32, 600), ctx.pick(12, 16), ctx.pick(5, 6))
+    wtraces, wmeta = walks(ctx, ctx.pick(28, 600), ctx.pick(12, 16), ctx.pick(5, 6))
     t1 = os.times()
     ctx.cov["replay_cpu_s"] = round((t1.children_user + t1.children_system + t1.user + t1.system)
                                     - (t0.children_user + t0.children_system + t0.user + t0.system), 1)
